@@ -313,7 +313,9 @@ def run_real(c, ctx):
         elif e in ('case_runner_to_ds', 'case_runner_to_df'):
             fn = xyz.case_runner_to_df if c['to_df'] else xyz.case_runner_to_ds
             spelling = rng.choice(['dict', 'tuple'])
-            res = fn(f, sw['case_args'], cases_t if spelling == 'tuple' else cases_d, combos=combos, verbosity=0, **common_kw, **kw)
+            # one case argument may be named by the bare string (also a name longer than one character)
+            fa = sw['case_args'][0] if len(sw['case_args']) == 1 and rng.random() < 0.6 else sw['case_args']
+            res = fn(f, fa, cases_t if spelling == 'tuple' else cases_d, combos=combos, verbosity=0, **common_kw, **kw)
         else:
             # the runner's own list of argument names, in an order of its own: the names given with a call (run_cases'
             # fn_args, the key order of a Sampler's combos) need not be a prefix of it
